@@ -26,9 +26,15 @@ Inductive rexpr :=
 | RNeg (e : rexpr)
 | RAdd (a b : rexpr) | RSub (a b : rexpr) | RMul (a b : rexpr) | RDiv (a b : rexpr)
 | RPow (e : rexpr) (n : N)     (* e ^ n, n a natural literal *)
+| RPowE (a b : rexpr)          (* a ^ b, b any expression whose value is a natural number *)
 | RFloor (e : rexpr) | RCeil (e : rexpr) | RRound (e : rexpr).
 
 Definition qpow (q : Q) (n : N) : Q := Qpower q (Z.of_N n).
+
+(* the natural number a rational is, if any *)
+Definition q_nat (q : Q) : option N :=
+  let r := Qred q in
+  if (Qden r =? 1)%positive && (0 <=? Qnum r)%Z then Some (Z.to_N (Qnum r)) else None.
 
 (* f64-style round: halves away from zero *)
 Definition qround (q : Q) : Z :=
@@ -128,6 +134,18 @@ Section WithPi.
     | RDiv a b => do x <- rfeval_gen old a; do y <- rfeval_gen old b;
                   do r <- er_div x y; Ok (fst r, snd r && snd x && snd y)
     | RPow e n => do x <- rfeval_gen old e; do r <- real_pow (fst x) n; Ok (fst r, snd x && snd r)
+    | RPowE a b =>
+      (* Value::pow: exact = self.exact && rhs.exact && value.exact; Real::pow looks only
+         at the VALUE of an integer exponent *)
+      do x <- rfeval_gen old a; do y <- rfeval_gen old b;
+      match fst y with
+      | RSimple q =>
+        match q_nat q with
+        | Some n => do r <- real_pow (fst x) n; Ok (fst r, snd x && snd y && snd r)
+        | None => Err EOther          (* negative / fractional exponent: Fmt/Root.v *)
+        end
+      | RPi _ => Err EOther
+      end
     | RFloor e => do x <- rfeval_gen old e; Ok (v_intfn old Qfloor x)
     | RCeil e => do x <- rfeval_gen old e; Ok (v_intfn old Qceiling x)
     | RRound e => do x <- rfeval_gen old e; Ok (v_intfn old qround x)
@@ -145,7 +163,7 @@ Section WithPi.
     match e with
     | RLit _ | RPiC => false
     | RApx e | RNeg e | RPow e _ => known_C03_intfn_of_pi e
-    | RAdd a b | RSub a b | RMul a b | RDiv a b => known_C03_intfn_of_pi a || known_C03_intfn_of_pi b
+    | RAdd a b | RSub a b | RMul a b | RDiv a b | RPowE a b => known_C03_intfn_of_pi a || known_C03_intfn_of_pi b
     | RFloor e | RCeil e | RRound e => pi_multiple e || known_C03_intfn_of_pi e
     end.
 End WithPi.
@@ -191,6 +209,9 @@ Fixpoint sval (e : rexpr) : option sv :=
   | RMul a b => obind (sval a) (fun x => obind (sval b) (fun y => sv_mul x y))
   | RDiv a b => obind (sval a) (fun x => obind (sval b) (fun y => sv_div x y))
   | RPow e n => obind (sval e) (fun x => sv_pow x n)
+  | RPowE a b => obind (sval a) (fun x => obind (sval b) (fun y =>
+                   if qzero (snd y) then match q_nat (fst y) with Some n => sv_pow x n | None => None end
+                   else None))
   | RFloor e => obind (sval e) (sv_intfn Qfloor)
   | RCeil e => obind (sval e) (sv_intfn Qceiling)
   | RRound e => obind (sval e) (sv_intfn qround)
